@@ -17,7 +17,7 @@ from .. import ref
 from ..lab import LFS, make_odb
 from ..world import World, digest_obj, stamp, write_file
 
-U = ["a", "b", "s/a", "s/é", "s/t/a", "sx/a", "s/b\\c"]  # "s" is a string prefix of "sx"
+U = ["a", "b", "s/a", "s/é", "s/t/a", "sx/a", "s/b\\c", "s-x/a"]  # "s" is a string prefix of "sx"
 H = {1: ref.md5(b"h-one"), 2: ref.md5(b"h-two")}
 DECOS = ["none", "size", "exec", "inode-mtime", "nfiles-etag"]
 
